@@ -141,6 +141,15 @@ def gen(rng, tier):
             t = nested(rng, n, rng.choice([b"[]", b"{}", b"[1]"])) if n > 0 else rng.choice([b"[]", b"{}", b"[1, 2]"])
             meta = {"kind": "fd-depth", "D": 32, "text": t, "chunks": None, "flags": 0, "fd": dreq}
             out.append((line(32, 0, ["D%d,%s" % (dreq, hx(t))]), meta))
+    # small scope, exhaustively: every sequence of up to 5 (thorough: 6) tokens over [ ] { } "k": 1 , for D = 1, 2, 3 (model vs
+    # implementation; the accept/reject oracle applies to the well-formed ones)
+    import itertools
+    toks_ = [b"[", b"]", b"{", b"}", b'"k":', b"1", b","]
+    for ln in range(1, 6 if tier == "quick" else 7):
+        for seq in itertools.product(toks_, repeat=ln):
+            t = b"".join(seq)
+            for D in (1, 2, 3):
+                out.append((line(D, 0, ["Z" + hx(t)]), {"kind": "small-scope", "D": D, "text": t, "chunks": None, "flags": 0, "small": True}))
     # the default limit (32) of the one-call entry points json_tokener_parse_verbose / json_tokener_parse and of
     # json_tokener_new(): exact as well
     for n in (0, 1, 30, 31, 32, 33, 34, 40):
@@ -162,6 +171,13 @@ def oracle(line_, meta, impl):
     if "LEAK" in impl:
         return ("leak", impl[-30:])
     D, t = meta["D"], meta["text"]
+    if meta.get("small"):
+        # judged by the exact oracle only when the text is a valid document
+        try:
+            import json
+            json.loads(t.decode("ascii"))
+        except Exception:
+            return None
     if "fd" in meta:
         dreq = meta["fd"]
         deff = 32 if dreq == -1 else dreq
